@@ -10,7 +10,7 @@ def run(tier):
         res = vlib.run_tlc("MC_Server", cfg, "C08/mc", workers=12, timeout=1800, collect_prints=False)
         vlib.expect_model_ok(res, "Server.tla (%s)" % cfg)
         c.add_model("MC_Server/" + cfg + " (NoStranded, Responsive)", res)
-    ev, _ = sc.server_stage(c, "hostile,mixed", "hostile")
+    ev, _ = sc.server_stage(c, "hostile,stats,mixed", "hostile")
     sc.sample_round(c, ev, lambda e: e["greased"])
     sc.sample_round(c, ev)
     c.rule = ("code->spec: seeded datagram sequences (valid, empty/odd nonces, near-valid mutants, random strings, lengths 0..65507, full batches of "
